@@ -1566,3 +1566,37 @@ mod test {
         );
     }
 }
+
+#[cfg(feature = "verif-hooks")]
+pub(crate) mod verif_local {
+    use super::*;
+
+    /// `UseTree::from_path` with a dummy span (no visibility, attributes or list item).
+    pub(crate) fn tree_from_path(path: Vec<UseSegment>) -> UseTree {
+        UseTree::from_path(path, rustc_span::DUMMY_SP)
+    }
+
+    /// `UseSegment::remove_alias`
+    pub(crate) fn remove_alias(seg: &UseSegment) -> UseSegment {
+        seg.remove_alias()
+    }
+
+    /// `UseTree::from_ast` with the arguments of `from_ast_with_normalization`, not normalised.
+    pub(crate) fn from_ast_raw(context: &RewriteContext<'_>, item: &ast::Item) -> Option<UseTree> {
+        match item.kind {
+            ast::ItemKind::Use(ref use_tree) => Some(UseTree::from_ast(
+                context,
+                use_tree,
+                None,
+                Some(item.vis.clone()),
+                Some(item.span.lo()),
+                if item.attrs.is_empty() {
+                    None
+                } else {
+                    Some(item.attrs.clone())
+                },
+            )),
+            _ => None,
+        }
+    }
+}
